@@ -153,14 +153,16 @@ def c15_case(draw, tier):
             r = ["col", draw(st.sampled_from(rsc.by_fam[f]))[0]]
             op = draw(st.sampled_from(["eq", "eq", "eq", "lt", "ge", "ne"])) if f != "bool" else "eq"
             conds.append(["fn", op, [l, r], {}])
-        if not conds:
-            conds = [["lit", True]]
-        on = conds[0]
-        for c in conds[1:]:
-            on = ["fn", "and", [on, c], {}]
-        L = [{"out": "L1", "verb": "join", "in": p, "right": rv, "how": "inner", "on": [on], "suffix": "_jj", "on_single": True}]
-        R = [{"out": "R1", "verb": "join", "in": p, "right": rv, "how": "inner", "cross": True, "on": [], "suffix": "_jj"},
-             {"out": "R2", "verb": "filter", "in": "R1", "preds": [on]}]
+        R = [{"out": "R1", "verb": "join", "in": p, "right": rv, "how": "inner", "cross": True, "on": [], "suffix": "_jj"}]
+        if conds:
+            on = conds[0]
+            for c in conds[1:]:
+                on = ["fn", "and", [on, c], {}]
+            L = [{"out": "L1", "verb": "join", "in": p, "right": rv, "how": "inner", "on": [on], "suffix": "_jj", "on_single": True}]
+            R.append({"out": "R2", "verb": "filter", "in": "R1", "preds": [on]})
+        else:
+            # no pair of columns of one family: `on` needs a column expression, so both sides are the plain cross join
+            L = [dict(R[0], out="L1")]
     elif eq == "map_when":
         f2 = draw(st.sampled_from([f for f in ("int", "str") if sc.by_fam[f]] or ["int"]))
         x = expr(f2, 1)
